@@ -6,6 +6,7 @@ import (
 	"fmt"
 	"os"
 	"regexp"
+	"runtime"
 	"runtime/debug"
 	"strconv"
 	"strings"
@@ -392,6 +393,7 @@ func searchMain(t *testing.T, e Engine, prop, tier string, known []*regexp.Regex
 			}
 			out := SafeRun(t, e, prop, plan)
 			runs++
+			memStat(runs)
 			if v := out.Violation; v != nil && v.Class != "harness" && matchKnown(known, v) {
 				out.Known[v.Sig]++
 				out.Violation = nil
@@ -445,6 +447,19 @@ func searchMain(t *testing.T, e Engine, prop, tier string, known []*regexp.Regex
 	if found != nil {
 		fmt.Printf("FOUND property=%s class=%s sig=%q replay=%s\n", prop, found.Class, found.Sig, replayPath)
 	}
+}
+
+// memStat (VERIF_MEMSTAT=n): every n runs one line with the live heap, the memory obtained from the OS and the number
+// of goroutines, so that a leak across runs shows.
+func memStat(runs int) {
+	n := int(envInt("VERIF_MEMSTAT", 0))
+	if n <= 0 || runs%n != 0 {
+		return
+	}
+	runtime.GC()
+	var m runtime.MemStats
+	runtime.ReadMemStats(&m)
+	fmt.Printf("MEM runs=%d heap_alloc=%dMB heap_sys=%dMB sys=%dMB goroutines=%d\n", runs, m.HeapAlloc>>20, m.HeapSys>>20, m.Sys>>20, runtime.NumGoroutine())
 }
 
 func tail(s []string, n int) []string {
@@ -508,8 +523,15 @@ func logsMain(t *testing.T, e Engine, prop, tier string) {
 		defer func() { recover() }()
 		rapid.Check(shim, func(rt *rapid.T) {
 			plan := e.Draw(rt, prop, tier)
+			if os.Getenv("VERIF_LOGPLANS") != "" {
+				// debugging aid: the plan of every run as a replay file next to its log (written before the run)
+				praw, _ := json.Marshal(plan)
+				b, _ := json.Marshal(&Replay{Property: prop, Engine: e.Name(), Class: "logs", Sig: "logs", Plan: praw})
+				_ = os.WriteFile(fmt.Sprintf("%s/run%04d.replay.json", dir, n+1), b, 0o644)
+			}
 			out := SafeRun(t, e, prop, plan)
 			n++
+			memStat(n)
 			verdict := "ok"
 			if out.Violation != nil {
 				verdict = out.Violation.Sig
